@@ -70,6 +70,10 @@ def streams(tier, rng, P, only=None, cases=None):
             add('STR Zqx={"%s"} Zqx f' % "".join(fw(ch) if rng.random() < 0.4 else ch for ch in a), "fw")
         # corpus of past crashes / hangs
         add('STR A={"｛cde｝4"} A f', "corpus")
+        # logs longer than the 4096-character cap made of multi-byte text, at every alignment of the cut
+        for k in range(0, 7):
+            add("Print({%s}) FOR(INT I=0;I<120;I++){ Print({春の歌、桜、弥生の空は見渡す限り}) } l4 cde" % ("a" * k), "corpus")
+            add("Print({%s}) FOR(INT I=0;I<99;I++){ Print({é𝄞あ}+I) ZZ%d }" % ("b" * k, k), "corpus")
         for src in ["TimeSignature(4)", "SysEx=", "MasterVolume(100)", "MasterBalance(0)", "~{}={x} ド", "M.Frequency(0) M.onTime(0,127,!1)", "Random(0)", "PRINT(Random(0))",
                     "PRINT(RandomSelect())", "PRINT(Random(5,4))", "y1,", "$あ{n36,}", "v__1,100 c", "PRINT(7%0)", "PRINT(MID({abc},10,2))", "y200,1 c c PlayFrom(1:2:0)",
                     "INT A=(1", "PRINT(MID({あ},1,1))", "[0 c]", "[-1 c]", "TR(-1) c", "CH(99) c", "o99 c", "q-5 c", "l0 c", "c0", "{}", "{ }0", "'c'0", "TIME(0:0:0) c", "TimeSignature(0,0) TIME(2:1:0) c",
